@@ -86,14 +86,16 @@ def weight_domain_instance(lead, K, N, wca, with_saliency):
 
     def make(B):
         sp = B.sp
-        # a posterior, parametrised: g_k = u_k / sum_j u_j with free non-negative u (positive column mass)
-        u = cells(B.real('u', full, lo=0.0, dist=(0.0, 1.0)))
+        # a posterior, parametrised linearly over the simplex: K-1 free non-negative coordinates with sum <= 1, the last class
+        # takes the remaining mass (no division: keeps the obligations within the linear / low-degree fragment)
+        u = cells(B.real('u', lead + (K - 1, N), lo=0.0, dist=(0.0, 1.0 / K)))
         gc = np.empty(full, dtype=object)
         for i in np.ndindex(*(lead + (N,))):
-            tot = sp.sum(u[i[:-1] + (k, i[-1])] for k in range(K))
-            B.require('column-mass-positive', sp.gt(tot, 0.0))
-            for k in range(K):
-                gc[i[:-1] + (k, i[-1])] = u[i[:-1] + (k, i[-1])] / tot
+            tot = sp.sum(u[i[:-1] + (k, i[-1])] for k in range(K - 1))
+            B.require('column-on-the-simplex', sp.le(tot, 1.0))
+            for k in range(K - 1):
+                gc[i[:-1] + (k, i[-1])] = u[i[:-1] + (k, i[-1])]
+            gc[i[:-1] + (K - 1, i[-1])] = 1.0 - tot
         aff = B.derived('g', gc, np.float64)
         inp = {'aff': aff, 'sal': None}
         if with_saliency:
